@@ -47,7 +47,12 @@ CONN_FUNCTIONS = [
     ("forceCloseInLoop", "forceCloseInLoop", None), ("startReadInLoop", "startReadInLoop", None),
     ("stopReadInLoop", "stopReadInLoop", None), ("connectEstablished", "connectEstablished", None),
     ("connectDestroyed", "connectDestroyed", None), ("handleRead", "handleRead", None),
-    ("handleWrite", "handleWrite", None), ("handleClose", "handleClose", None), ("handleError", "handleError", None)]
+    ("handleWrite", "handleWrite", None), ("handleClose", "handleClose", None), ("handleError", "handleError", None),
+    # the remaining public entry points and forwarders
+    ("startRead", "startRead", None), ("stopRead", "stopRead", None), ("setTcpNoDelay", "setTcpNoDelay", None)]
+# overloads: (Lean name, C++ function, number of parameters, text the first parameter's type contains)
+CONN_OVERLOADS = [("sendPtr", "send", 2, "void"), ("sendPiece", "send", 1, "StringPiece"), ("sendBuf", "send", 1, "Buffer"),
+                  ("sendInLoopPiece", "sendInLoop", 1, "StringPiece")]
 
 CHAN_OPS = ("enableReading", "disableReading", "enableWriting", "disableWriting", "disableAll", "remove", "tie")
 CB_OF = {"TcpConnection": {"connectionCallback_": "connection", "messageCallback_": "message",
@@ -74,6 +79,10 @@ LOG_PURE = ("operator<<", "stream", "fd", "stateToString", "strerror_tl", "reven
             "operator->", "operator*", "get", "c_str", "name", "toIpPort", "logLevel", "__errno_location",
             "localAddress", "peerAddress", "connected")
 FUNCTOR_BUILDERS = ("bind", "makeWeakCallback", "shared_from_this", "operator->", "operator*")
+# calls that produce a bound VALUE of a functor (printed as part of what the functor runs)
+FUNCTOR_VALUES = ("as_string", "retrieveAllAsString")
+# value getters of a parameter / local object (StringPiece, Buffer*)
+PURE_LOCAL = ("peek", "readableBytes", "data", "size", "as_string")
 # types whose construction / conversion is not an action
 VALUE_TYPES = ("std::", "shared_ptr<", "weak_ptr<", "muduo::net::TcpConnectionPtr", "TcpConnectionPtr", "muduo::StringPiece",
                "StringPiece", "muduo::string", "string", "const std::", "muduo::WeakCallback<", "WeakCallback<",
@@ -193,6 +202,7 @@ class Walker:
 
     def __init__(self, cls, fname):
         self.cls, self.fname = cls, fname
+        self.fnptrs = {}       # id of a local `void (C::*fp)(..) = &C::f` -> "f"
 
     def err(self, msg):
         raise ExtractError("%s::%s: %s" % (self.cls, self.fname, msg))
@@ -293,8 +303,10 @@ class Walker:
                 self.err("a lambda is handed to the loop (cannot name what it runs)")
             if k in CALL_KINDS:
                 nm = callee_name(x)
-                if nm not in FUNCTOR_BUILDERS:
+                if nm not in FUNCTOR_BUILDERS and nm not in FUNCTOR_VALUES:
                     self.err("call of `%s` while building the functor handed to %s" % (nm, kind))
+            if k == "DeclRefExpr" and x.get("referencedDecl", {}).get("id") in self.fnptrs:
+                targets.append(self.fnptrs[x["referencedDecl"]["id"]])
             if k == "UnaryOperator" and x.get("opcode") == "&":
                 t = peel(kids(x)[0])
                 if t.get("kind") == "DeclRefExpr" and t.get("referencedDecl", {}).get("kind") in ("CXXMethodDecl", "FunctionDecl"):
@@ -354,8 +366,8 @@ class Walker:
                     return None, False                                  # I2
                 if m == "loop_" and nm in HANDOFF:
                     return self.functor(n, HANDOFF[nm]), False
-                if m == "socket_" and nm == "shutdownWrite":
-                    return ".sys .shutdownWrite %s" % lean_str(", ".join(self.pp(a) for a in args)), True
+                if m == "socket_" and nm in ("shutdownWrite", "setTcpNoDelay"):
+                    return ".sys .%s %s" % (nm, lean_str(", ".join(self.pp(a) for a in args))), True
                 if m in BUFFERS and nm == "readFd":
                     return ".sys .readFd %s" % lean_str(m + ": " + ", ".join(self.pp(a) for a in args)), True
                 if m in BUFFERS and nm in BUF_OPS:
@@ -365,7 +377,12 @@ class Walker:
                 self.err("call of `%s` on member `%s` is not in the vocabulary" % (nm, m))
             b = deref(base)
             if b.get("kind") == "DeclRefExpr":
-                self.err("call of `%s` on local `%s` is not in the vocabulary" % (nm, b["referencedDecl"]["name"]))
+                lname = b["referencedDecl"]["name"]
+                if nm in PURE_LOCAL:
+                    return None, True
+                if nm in BUF_OPS:
+                    return ".bufOp .%s %s %s" % (nm, lean_str(lname), lean_str(", ".join(self.pp(a) for a in args))), True
+                self.err("call of `%s` on local `%s` is not in the vocabulary" % (nm, lname))
             self.err("call of `%s` on an object I cannot name" % nm)
         if k == "CXXOperatorCallExpr":
             if nm in ("operator->", "operator*"):
@@ -512,6 +529,12 @@ class Walker:
                 init = kids(v)
                 if not init:
                     continue
+                i0 = peel(init[0])
+                if i0.get("kind") == "UnaryOperator" and i0.get("opcode") == "&":
+                    t0 = peel(kids(i0)[0])
+                    if t0.get("kind") == "DeclRefExpr" and t0.get("referencedDecl", {}).get("kind") == "CXXMethodDecl":
+                        self.fnptrs[v.get("id")] = t0["referencedDecl"]["name"]     # `fp = &TcpConnection::sendInLoop` (I4)
+                        continue
                 sub = []
                 self.expr(init[0], sub)
                 t = ctype(v).replace("const ", "").strip()
@@ -674,6 +697,7 @@ def generate():
     out = [HEADER % "muduo/net/TcpConnection.cc, Channel.cc, muduo/base/WeakCallback.h", "import MuduoVerif.Model.ConnSkelDecl\n", HEAD_DOC,
            "namespace MuduoVerif.Gen.ConnSkel", "open MuduoVerif.ConnSkel\n"]
     todo = [(lean, "TcpConnection", the_function(docs, cxx, nparams=np)) for lean, cxx, np in CONN_FUNCTIONS]
+    todo += [(lean, "TcpConnection", the_function(docs, cxx, nparams=np, param_type=pt)) for lean, cxx, np, pt in CONN_OVERLOADS]
     todo.append(("handleEventWithGuard", "Channel", the_function(cdocs, "handleEventWithGuard")))
     for lean, cls, fn in todo:
         w = Walker(cls, fn["name"])
